@@ -1,7 +1,7 @@
 (* C12 — formatting an executable document and parsing it back.  Statements only. *)
 From GQL.model Require Import Base Utf8 Lexer Format.
 From GQL.model Require Import Ast Parser Prog ParseQuery.
-From GQL.proofs Require Import JsonRoundtrip QuoteRoundtrip NumberGrammar TypeRoundtrip ValueRoundtrip TokenStream ParseComplete Sizes FormatTokens FormatRoundtrip.
+From GQL.proofs Require Import JsonRoundtrip QuoteRoundtrip NumberGrammar TypeRoundtrip ValueRoundtrip TokenStream ParseComplete Sizes FormatTokens FormatRoundtrip FormatFixpoint.
 
 (* String values survive byte for byte: whatever valid UTF-8 text v a String/BlockString value
    holds, the text Value.String prints for it is read back by the lexer as one String token whose
@@ -111,6 +111,15 @@ Theorem C12_documents_survive : forall d o q,
   exists q', parseQuery d 0 (FormatQueryDocument o q) = POk q' /\ erase_qdoc q' = erase_qdoc (norm_doc q).
 Proof. exact format_parse_entry. Qed.
 Print Assumptions C12_documents_survive.
+
+(* ... and formatting is a fixpoint: the document parsed back prints as the same text (printing looks
+   neither at positions, nor at the String/BlockString distinction, nor at an absent alias). *)
+Theorem C12_formatting_is_a_fixpoint : forall d o q,
+  List.Forall ign_char (fo_indent o) -> d F_L1 = false -> doc_lok q -> doc_wok d (norm_doc q) ->
+  exists q', parseQuery d 0 (FormatQueryDocument o q) = POk q' /\ erase_qdoc q' = erase_qdoc (norm_doc q)
+             /\ FormatQueryDocument o q' = FormatQueryDocument o q.
+Proof. exact format_fixpoint. Qed.
+Print Assumptions C12_formatting_is_a_fixpoint.
 
 (* the lexical half on its own: what is printed is read as the tokens of the grammar *)
 Theorem C12_printed_tokens : forall d o, List.Forall ign_char (fo_indent o) -> d F_L1 = false ->
